@@ -147,6 +147,7 @@ def check(facts, rep, tier, cfg):
     rep.rule("C04.S7", "no new process-wide mutable state (static cell / lock / once-cell) in the files this property is anchored in")
     import whomay
     whomay.check_new_statics(facts, rep, "C04.S7", "C04")
+    whomay.check_new_trait_methods(facts, rep, "C04.S7", "C04")
 
 
 def _check_positive(facts, rep, b, bi, s, what):
